@@ -781,7 +781,7 @@ def c20(work, v, tier):
 @check("C04")
 def c04(work, v, tier):
     q = tier == "quick"
-    fams = ["c04d1", "c04d2", "c04d3", "c04fold"]
+    fams = ["c04d1", "c04d2", "c04d3", "c04fold", "c04inv"]
     return sm_check(work, v, "C04", tier, [], [], [],
                     ["RoundTrip on every generated tree: Decode(UnmarshalSpec(t)) is well formed and equals Struct(t) (the design itself has the property)"],
                     "codec round trip against spec/Codec.tla: for all trees of depth <= 3, width <= 2 over the five kinds (empty ones included), Conditions whose "
